@@ -12,7 +12,8 @@ from concurrent.futures import ThreadPoolExecutor
 from ..common import Report, main_wrapper, scratch, eff_seed, run_tlc, MachineryError, tlc_failure_excerpt, ROOT, NCPU
 from .args import parse
 
-MODULES = ["harness.corpus.basic", "harness.corpus.configs", "harness.corpus.memory", "harness.corpus.replace"]
+MODULES = ["harness.corpus.detlib", "harness.corpus.basic", "harness.corpus.configs", "harness.corpus.memory",
+           "harness.corpus.replace", "harness.corpus.nameclash"]
 
 
 def one_run(cfg, steps):
@@ -46,7 +47,7 @@ def main():
     if not quick:
         variants += [{"hashseed": 3 + k, "offset": 13 * k, "order": ["fwd", "rev", "none"][k % 3]} for k in range(8)]
         variants += [{"hashseed": "random", "offset": 5, "order": "rev"}] * 4
-    mods = MODULES[:3] if quick else MODULES
+    mods = MODULES[:4] if quick else MODULES
     cfgs = [dict(v, module=m) for m in mods for v in variants]
     steps = 3 if quick else 6
     with ThreadPoolExecutor(NCPU) as ex:
